@@ -22,6 +22,21 @@
    it and TLC then finds the C10 counterexample; TRUE is the behaviour the
    property demands (and the repaired code has).
 
+   Round 2.  (a) `interpret(script, filename, environment)`: the commands
+   envcall / envfail / envread run a script in a caller-supplied environment
+   - a fresh one, one kept by the caller and used again (by every
+   interpreter), or a child of the session.  The implementation hangs the
+   root of the caller's chain under the session for the duration of the call;
+   cal records where the kept environment and the base environments hang
+   between calls.  Named deviation: DetachCallerEnv.  FALSE mirrors the
+   pinned code (the root is never detached: the kept environment stays under
+   the session of its first user, and the second walk to the root ends at a
+   base environment, which is then hung under a session - its own: a cycle);
+   TRUE is what the property demands.  (b) importer forms imp0 / impd
+   (SessionOps.IForms).  (c) bundled modules and the spelling of their names
+   (SessionOps.Canon): an activation carries the name as spelled (nm, what
+   is bound) and the module's identity (id, what is cached).
+
    No history variables: what a command returned is carried by the exported
    EDGE record, the repeat-check needs only the short-lived control states
    "failed"/"rerun"/"done" that collapse back into the idle state (Settle). *)
@@ -29,6 +44,7 @@ EXTENDS SessionOps, Json, IOUtils
 
 CONSTANTS Interps,          \* interpreter instances, e.g. {"i1","i2"}
           UnwindOnFailure,  \* TRUE: repaired behaviour; FALSE: pinned code
+          DetachCallerEnv,  \* TRUE: repaired behaviour; FALSE: pinned code
           Mode,             \* "c10": fixed FS10; "c11": generated FS
           ModSeq,           \* c11: the generated module ids, in order
           MaxOut,           \* c11: requires per generated module
@@ -43,10 +59,13 @@ CONSTANTS Interps,          \* interpreter instances, e.g. {"i1","i2"}
           Export            \* print EDGE / STATE / FSDEF records
 
 VARIABLES sess, mods, mstack, loads, ctl, gen, nreq,
-          fs            \* the module files: FS10, or FSOf(gen) once generated
+          fs,           \* the module files: FS10, or FSOf(gen) once generated
                         \* (a function of gen, kept as a variable only so that
                         \* TLC does not recompute it in every state)
-vars == <<sess, mods, mstack, loads, ctl, gen, nreq, fs>>
+          cal           \* caller environments: [ev: the kept one holds `ev`,
+                        \*   par: the session the kept one hangs under ("" = none),
+                        \*   bpar: per interpreter the session its BASE hangs under]
+vars == <<sess, mods, mstack, loads, ctl, gen, nreq, fs, cal>>
 
 ModIds == Range(ModSeq)
 Idx(m) == CHOOSE k \in DOMAIN ModSeq : ModSeq[k] = m
@@ -65,7 +84,22 @@ NoCmd == Cmd("", "", "", 0, "", "")
 Val(kind, v)   == [cls |-> "val",    kind |-> kind,  arg |-> "",  v |-> v]
 Err(kind, arg) == [cls |-> "err",    kind |-> kind,  arg |-> arg, v |-> 0]
 SynErr         == [cls |-> "syntax", kind |-> "eof", arg |-> "",  v |-> 0]
+Host(kind)     == [cls |-> "host",   kind |-> kind,  arg |-> "",  v |-> 0]   \* pinned code only
+Hang           == [cls |-> "hang",   kind |-> "",    arg |-> "",  v |-> 0]   \* pinned code only
 NoOut          == [cls |-> "",       kind |-> "",    arg |-> "",  v |-> 0]
+
+\* interpret with a caller environment (id = which one):
+\*   envcall  def ev = 4; x           a definition in the caller's scope, then a
+\*                                    read that must reach the session
+\*   envfail  def ev = 4; error 'boom'
+\*   envread  ev                      (kept environment only)
+C10Env(i) ==
+  { Cmd("envcall", i, "x", 0, e, "") : e \in {"fresh", "kept", "child"} }
+  \cup { Cmd("envfail", i, "", 0, e, "") : e \in {"kept", "child"} }
+  \cup { Cmd("envread", i, "ev", 0, "kept", "") }
+C10EnvTwo(i) ==
+  { Cmd("envcall", i, "x", 0, "kept", ""), Cmd("envfail", i, "", 0, "kept", ""),
+    Cmd("envcall", i, "x", 0, "child", "") }
 
 \* alphabets (selected by the cfg through CmdsOf <- ...)
 C10Core(i) ==
@@ -76,6 +110,7 @@ C10Core(i) ==
     Cmd("bump", i, "good", 0, "", "") }
   \cup { Cmd("require", i, "", 0, m, "plain") :
            m \in {"good", "good2", "missing", "broken", "synbad", "cyca"} }
+  \cup C10Env(i)
 C10Wide(i) ==
   C10Core(i) \cup { Cmd("require", i, "", 0, "cycb", "plain"),
                     Cmd("require", i, "", 0, "good", "as"),
@@ -84,19 +119,27 @@ C10Wide(i) ==
 C10Two(i) ==
   { Cmd("def", i, "x", 1, "", ""),      Cmd("bump", i, "good", 0, "", "") }
   \cup { Cmd("require", i, "", 0, m, "plain") : m \in {"good", "broken", "missing"} }
+  \cup C10EnvTwo(i)
 C11Cmds(i) ==
-  { Cmd("require", i, "", 0, m, Forms[f]) : m \in ModIds, f \in DOMAIN Forms }
+  { Cmd("require", i, "", 0, m, IForms[f]) : m \in ModIds, f \in DOMAIN IForms }
   \cup { Cmd("bump", i, n, 1, "", "") : n \in UNION {{m, Alias(m), NBump(m)} : m \in ModIds} }
 
 \* c11 with a single entry point: every form of requiring the first module
 \* (all graph shapes are generated, so this reaches every rooted shape)
 C11Entry(i) ==
-  { Cmd("require", i, "", 0, ModSeq[1], Forms[f]) : f \in DOMAIN Forms }
+  { Cmd("require", i, "", 0, ModSeq[1], IForms[f]) : f \in DOMAIN IForms }
   \cup { Cmd("bump", i, n, 1, "", "") : n \in UNION {{m, Alias(m), NBump(m)} : m \in ModIds} }
+
+\* c11, bundled modules under every spelling (and a user module under a
+\* spelling that is not its file name: user modules are found by exact name)
+C11Spell(i) ==
+  { Cmd("require", i, "", 0, sp, f) : sp \in {"sys", "Sys", "stat", "Stat", "STAT"}, f \in {"plain", "as"} }
+  \cup { Cmd("require", i, "", 0, sp, "plain") : sp \in {ModSeq[1], "MA"} }
 
 Cmds == UNION {CmdsOf(i) : i \in Interps}
 
-Act(id, form) == [id |-> id, form |-> form, ph |-> "push", pc |-> 0,
+\* sp = the module name as spelled in the require statement
+Act(sp, form) == [id |-> Canon(sp), nm |-> sp, form |-> form, ph |-> "push", pc |-> 0,
                   env |-> NoBind, pushed |-> FALSE]
 
 Idle == [ph |-> "idle", cmd |-> NoCmd, start |-> << >>, act |-> << >>,
@@ -108,11 +151,11 @@ VStr(x) == x.k \o ":" \o x.id \o ":" \o x.n \o ":" \o ToString(x.v)
 \* future: scopes, loaded modules with their counters, stack, load counters)
 Key == [s |-> [i \in Interps |-> [n \in DOMAIN sess[i] |-> VStr(sess[i][n])]],
         m |-> [i \in Interps |-> [id \in DOMAIN mods[i] |-> mods[i][id].ctr]],
-        k |-> mstack, l |-> loads, g |-> gen, n |-> nreq]
+        k |-> mstack, l |-> loads, g |-> gen, n |-> nreq, e |-> cal.ev]
 
 \* what a failed call may not change when it is repeated (load counters are
 \* the harness's instrumentation, not interpreter state)
-Snap == <<sess, mods, mstack>>
+Snap == <<sess, mods, mstack, cal>>
 
 Emit(e, tag, rec) == IF e /\ Export THEN PrintT("@@" \o tag \o "@@" \o ToJson(rec)) ELSE TRUE
 
@@ -130,21 +173,93 @@ Finish(e, c, out, startKey, re) ==
                                     !.second = out, !.snap = ctl.snap]
             ELSE IF out.cls # "val"
                  THEN [Idle EXCEPT !.ph = "failed", !.cmd = c, !.first = out,
-                                   !.snap = <<sess', mods', mstack'>>]
+                                   !.snap = Snap']
                  ELSE Idle
   /\ Emit(e, "EDGE", [p |-> startKey, c |-> c, o |-> out, q |-> Key'])
 
 -----------------------------------------------------------------------------
+(* Environment chains.  Code running in the session of i resolves a name in
+   sess[i], then in the base environment of i; where that base hangs under
+   another session (cal.bpar, pinned code only) the lookup goes on there.  A
+   chain is the sequence of interpreters whose session scopes a lookup passes
+   through.                                                                  *)
+NoInterp == ""
+NI == Cardinality(Interps)
+CalInit == [ev |-> FALSE, par |-> NoInterp, bpar |-> [i \in Interps |-> NoInterp]]
+
+RECURSIVE BaseChainF(_, _, _), RootOfF(_, _, _), VisOf(_)
+\* the sessions above the base of i; fuel bounds a walk that never ends
+BaseChainF(bp, i, fuel) ==
+  IF bp[i] = NoInterp \/ fuel = 0 THEN << >>
+  ELSE <<bp[i]>> \o BaseChainF(bp, bp[i], fuel - 1)
+\* the interpreter whose base is the root of the chain through base i
+\* ("?" = there is none: the chain is cyclic)
+RootOfF(bp, i, fuel) ==
+  IF bp[i] = NoInterp THEN i ELSE IF fuel = 0 THEN "?" ELSE RootOfF(bp, bp[i], fuel - 1)
+\* the scope a lookup through the chain ch sees (nearer scopes shadow)
+VisOf(ch) == IF ch = << >> THEN NoBind ELSE sess[Head(ch)] @@ VisOf(Tail(ch))
+
+SessChain(i) == <<i>> \o BaseChainF(cal.bpar, i, NI)
+Cyclic(i)    == Len(BaseChainF(cal.bpar, i, NI)) = NI
+
+(* interpret(script, filename, environment): walk from the caller's
+   environment to the root of its chain, hang the root under the session,
+   evaluate, detach.  EnvRoot = the interpreter whose BASE is that root,
+   NoInterp when the caller's environment is its own root.  The repaired code
+   does not hang a root that is the base of the interpreter itself.          *)
+EnvOps == {"envcall", "envfail", "envread"}
+EnvRoot(c) ==
+  CASE c.id = "fresh" -> NoInterp
+    [] c.id = "kept"  -> IF cal.par = NoInterp THEN NoInterp ELSE RootOfF(cal.bpar, cal.par, NI)
+    [] OTHER (* child of the session of c.i *) -> RootOfF(cal.bpar, c.i, NI)
+
+\* where things hang while the script runs
+Attached(c) ==
+  LET r == EnvRoot(c) IN
+  IF r = "?" THEN cal
+  ELSE IF r = NoInterp THEN (IF c.id = "kept" THEN [cal EXCEPT !.par = c.i] ELSE cal)
+  ELSE IF DetachCallerEnv /\ r = c.i THEN cal
+  ELSE [cal EXCEPT !.bpar[r] = c.i]
+
+\* the sessions the script's lookups pass through, and whether they can end
+EnvChain(c) ==
+  LET a == Attached(c)
+      first == IF c.id = "kept" THEN a.par ELSE c.i
+  IN [ch |-> <<first>> \o BaseChainF(a.bpar, first, NI),
+      cyc |-> Len(BaseChainF(a.bpar, first, NI)) = NI]
+
+EnvDefines(c) == c.op \in {"envcall", "envfail"} /\ c.id = "kept"
+CalNext(c) ==
+  IF EnvRoot(c) = "?" THEN cal                    \* the walk to the root never returns
+  ELSE LET a == IF DetachCallerEnv THEN cal ELSE Attached(c)   \* repaired: detached again
+       IN [a EXCEPT !.ev = @ \/ EnvDefines(c)]
+
+EnvOutcome(c) ==
+  LET ec  == EnvChain(c)
+      vis == VisOf(ec.ch)
+      undef(n) == IF ec.cyc THEN Host("RecursionError") ELSE Err("undef", n)
+  IN IF EnvRoot(c) = "?" THEN Hang
+     ELSE CASE c.op = "envcall" -> IF c.n \in DOMAIN vis THEN Val(vis[c.n].k, vis[c.n].v) ELSE undef(c.n)
+            [] c.op = "envfail" -> Err("boom", "")
+            [] OTHER (* envread: the kept environment's own scope first *) ->
+                 IF cal.ev THEN Val("int", 4)
+                 ELSE IF c.n \in DOMAIN vis THEN Val(vis[c.n].k, vis[c.n].v) ELSE undef(c.n)
+
+-----------------------------------------------------------------------------
 (* Atomic commands: def, assign, read, deffn, call, failexpr, syntax, loop,
-   bump.  S = the session scope of the addressed interpreter.              *)
+   bump, and the three with a caller environment.  S = the session scope of
+   the addressed interpreter, V = what a lookup from it sees.               *)
 S(c) == sess[c.i]
+V(c) == IF DetachCallerEnv THEN sess[c.i] ELSE VisOf(SessChain(c.i))
+Sees(c, n) == n \in DOMAIN V(c)
+Undef(c, n) == IF ~DetachCallerEnv /\ Cyclic(c.i) THEN Host("RecursionError") ELSE Err("undef", n)
 Has(c, n) == n \in DOMAIN S(c)
 BumpTarget(c) == S(c)[c.n].id
 BumpOk(c) == /\ Has(c, c.n)
              /\ \/ S(c)[c.n].k = "mod"
                 \/ S(c)[c.n].k = "sym" /\ S(c)[c.n].n = NBump(S(c)[c.n].id)
 
-AtomicOps == {"def", "assign", "read", "deffn", "call", "failexpr", "syntax", "loop", "bump"}
+AtomicOps == {"def", "assign", "read", "deffn", "call", "failexpr", "syntax", "loop", "bump"} \cup EnvOps
 
 NewScope(c) ==
   CASE c.op = "def"      -> (c.n :> IntV(c.v)) @@ S(c)
@@ -158,14 +273,15 @@ NewScope(c) ==
 Outcome(c) ==
   CASE c.op = "def"      -> Val("int", c.v)
     [] c.op = "assign"   -> IF Has(c, c.n) THEN Val("int", c.v) ELSE Err("unassigned", c.n)
-    [] c.op = "read"     -> IF Has(c, c.n) THEN Val(S(c)[c.n].k, S(c)[c.n].v) ELSE Err("undef", c.n)
+    [] c.op = "read"     -> IF Sees(c, c.n) THEN Val(V(c)[c.n].k, V(c)[c.n].v) ELSE Undef(c, c.n)
     [] c.op = "deffn"    -> Val("fn", 0)
-    [] c.op = "call"     -> IF ~Has(c, c.n) THEN Err("undef", c.n)          \* f() with def f() x
-                            ELSE IF ~Has(c, "x") THEN Err("undef", "x")
-                            ELSE Val(S(c)["x"].k, S(c)["x"].v)
+    [] c.op = "call"     -> IF ~Sees(c, c.n) THEN Undef(c, c.n)             \* f() with def f() x
+                            ELSE IF ~Sees(c, "x") THEN Undef(c, "x")
+                            ELSE Val(V(c)["x"].k, V(c)["x"].v)
     [] c.op = "failexpr" -> Err("boom", "")
     [] c.op = "syntax"   -> SynErr                          \* def z = 1; def w = (
     [] c.op = "loop"     -> Err("boom", "")
+    [] c.op \in EnvOps   -> EnvOutcome(c)
     [] OTHER (* bump *)  -> IF ~Has(c, c.n) THEN Err("undef", c.n)
                             ELSE Val("int", mods[c.i][BumpTarget(c)].ctr + 1)
 
@@ -177,6 +293,7 @@ Atomic(c, e) ==
   /\ sess' = [sess EXCEPT ![c.i] = NewScope(c)]
   /\ mods' = IF c.op = "bump" /\ Has(c, c.n)
              THEN [mods EXCEPT ![c.i][BumpTarget(c)].ctr = @ + 1] ELSE mods
+  /\ cal' = IF c.op \in EnvOps THEN CalNext(c) ELSE cal
   /\ UNCHANGED <<mstack, loads, gen, fs>>
   /\ Count
   /\ Finish(e, c, Outcome(c), Key, ctl.ph = "failed")
@@ -197,7 +314,7 @@ ReqStart(c) ==
                          !.cmd = c, !.start = Key, !.act = <<Act(c.id, c.form)>>,
                          !.first = ctl.first, !.snap = ctl.snap]
   /\ Count
-  /\ UNCHANGED <<sess, mods, mstack, loads, gen, fs>>
+  /\ UNCHANGED <<sess, mods, mstack, loads, gen, fs, cal>>
 
 \* Environment.pushModuleStack: error if the id is already on the stack
 ReqPush ==
@@ -207,7 +324,7 @@ ReqPush ==
           /\ UNCHANGED mstack
      ELSE /\ mstack' = [mstack EXCEPT ![I] = Append(@, Top.id)]
           /\ ctl' = SetTop([Top EXCEPT !.ph = "lookup", !.pushed = TRUE])
-  /\ UNCHANGED <<sess, mods, loads, gen, nreq, fs>>
+  /\ UNCHANGED <<sess, mods, loads, gen, nreq, fs, cal>>
 
 \* cache hit / find the file / parse it
 ReqLookup ==
@@ -216,7 +333,7 @@ ReqLookup ==
             ELSE IF Top.id \notin DOMAIN FS THEN [ctl EXCEPT !.err = Err("notfound", Top.id)]
             ELSE IF FS[Top.id].syn THEN [ctl EXCEPT !.err = SynErr]
             ELSE SetTop([Top EXCEPT !.ph = "load", !.pc = 0, !.env = NoBind])
-  /\ UNCHANGED <<sess, mods, mstack, loads, gen, nreq, fs>>
+  /\ UNCHANGED <<sess, mods, mstack, loads, gen, nreq, fs, cal>>
 
 Target(env, st) == env[BindName(st.form, st.id)].id
 
@@ -228,7 +345,9 @@ ReqLoadStep ==
      IN IF a.pc = 0
         THEN /\ loads' = [loads EXCEPT ![I] =
                    (a.id :> Min(LoadCap, (IF a.id \in DOMAIN @ THEN @[a.id] ELSE 0) + 1)) @@ @]
-             /\ ctl' = SetTop([a EXCEPT !.pc = 1, !.env = StdEnv(a.id, ImporterScope)])
+             /\ ctl' = SetTop([a EXCEPT !.pc = 1,
+                                         !.env = IF a.id \in Bundled THEN NoBind   \* contents not modelled
+                                                 ELSE StdEnv(a.id, ImporterScope)])
              /\ UNCHANGED mods
         ELSE IF a.pc > Len(body)
         THEN /\ ctl' = SetTop([a EXCEPT !.ph = "register"])
@@ -249,44 +368,46 @@ ReqLoadStep ==
                [] OTHER (* fail *) ->
                     /\ ctl' = [ctl EXCEPT !.err = Err("boom", "")]
                     /\ UNCHANGED <<loads, mods>>
-  /\ UNCHANGED <<sess, mstack, gen, nreq, fs>>
+  /\ UNCHANGED <<sess, mstack, gen, nreq, fs, cal>>
 
 \* modules[moduleidentifier] = moduleEnv
 ReqRegister ==
   /\ Stepping("register")
   /\ mods' = [mods EXCEPT ![I] = (Top.id :> [vars |-> Top.env, ctr |-> 0]) @@ @]
   /\ ctl' = SetTop([Top EXCEPT !.ph = "pop"])
-  /\ UNCHANGED <<sess, mstack, loads, gen, nreq, fs>>
+  /\ UNCHANGED <<sess, mstack, loads, gen, nreq, fs, cal>>
 
 \* environment.popModuleStack()
 ReqPop ==
   /\ Stepping("pop")
   /\ mstack' = [mstack EXCEPT ![I] = SubSeq(@, 1, Len(@) - 1)]
   /\ ctl' = SetTop([Top EXCEPT !.ph = "bind", !.pushed = FALSE])
-  /\ UNCHANGED <<sess, mods, loads, gen, nreq, fs>>
+  /\ UNCHANGED <<sess, mods, loads, gen, nreq, fs, cal>>
 
 \* the three binding forms and the underscore filter (nodes.py:1778-1800):
 \* iterate the module's local symbols, skip private ones, put into the importer
 Underscore(n) == IsPrivate(FS, n)
-Bindings(form, d, mv) ==
+\* (d = the module's identity, nm = its name as spelled in the statement; an
+\* import list binds every pair it lists, the empty list binds nothing)
+Bindings(form, d, nm, mv) ==
   CASE form = "unq" -> [n \in {s \in DOMAIN mv : ~Underscore(s)} |-> mv[n]]
-    [] form = "imp" ->
-         LET hit == {p \in ImpList(d) : p[1] \in DOMAIN mv /\ ~Underscore(p[1])}
+    [] form \in ImpForms ->
+         LET hit == {p \in ImpListOf(form, d) : p[1] \in DOMAIN mv /\ ~Underscore(p[1])}
          IN [b \in {p[2] : p \in hit} |-> mv[(CHOOSE p \in hit : p[2] = b)[1]]]
-    [] form = "as"  -> (Alias(d) :> ModV(d))
-    [] OTHER        -> (d :> ModV(d))
+    [] form = "as"  -> (Alias(nm) :> ModV(d))
+    [] OTHER        -> (nm :> ModV(d))
 
 ReqBind(e) ==
   /\ Stepping("bind")
-  /\ LET b == Bindings(Top.form, Top.id, mods[I][Top.id].vars) IN
+  /\ LET b == Bindings(Top.form, Top.id, Top.nm, mods[I][Top.id].vars) IN
      IF Depth = 1
      THEN /\ sess' = [sess EXCEPT ![I] = b @@ @]
-          /\ UNCHANGED <<mods, mstack, loads, gen, nreq, fs>>
+          /\ UNCHANGED <<mods, mstack, loads, gen, nreq, fs, cal>>
           /\ Finish(e, ctl.cmd, Val("null", 0), ctl.start, ctl.ph = "rerun")
      ELSE /\ ctl' = [ctl EXCEPT !.act = [k \in 1..(Depth - 1) |->
                          IF k = Depth - 1 THEN [ctl.act[k] EXCEPT !.env = b @@ @]
                          ELSE ctl.act[k]]]
-          /\ UNCHANGED <<sess, mods, mstack, loads, gen, nreq, fs>>
+          /\ UNCHANGED <<sess, mods, mstack, loads, gen, nreq, fs, cal>>
 
 \* an error leaves the activation; the pinned code leaves the id on the stack
 ReqUnwind ==
@@ -294,11 +415,11 @@ ReqUnwind ==
   /\ mstack' = IF UnwindOnFailure /\ Top.pushed
                THEN [mstack EXCEPT ![I] = SubSeq(@, 1, Len(@) - 1)] ELSE mstack
   /\ ctl' = [ctl EXCEPT !.act = SubSeq(@, 1, Depth - 1)]
-  /\ UNCHANGED <<sess, mods, loads, gen, nreq, fs>>
+  /\ UNCHANGED <<sess, mods, loads, gen, nreq, fs, cal>>
 
 ReqFail(e) ==
   /\ Running /\ ctl.err.cls # "" /\ Depth = 0
-  /\ UNCHANGED <<sess, mods, mstack, loads, gen, nreq, fs>>
+  /\ UNCHANGED <<sess, mods, mstack, loads, gen, nreq, fs, cal>>
   /\ Finish(e, ctl.cmd, ctl.err, ctl.start, ctl.ph = "rerun")
 
 Internal(e) == ReqPush \/ ReqLookup \/ ReqLoadStep \/ ReqRegister \/ ReqPop
@@ -308,7 +429,7 @@ Internal(e) == ReqPush \/ ReqLookup \/ ReqLoadStep \/ ReqRegister \/ ReqPop
 Settle ==
   /\ ctl.ph \in {"failed", "done"}
   /\ ctl' = Idle
-  /\ UNCHANGED <<sess, mods, mstack, loads, gen, nreq, fs>>
+  /\ UNCHANGED <<sess, mods, mstack, loads, gen, nreq, fs, cal>>
 
 -----------------------------------------------------------------------------
 (* c11: generating the module graph, edge by edge in canonical order (edges
@@ -327,16 +448,16 @@ GenEdge(m, d, form, poke) ==
   /\ GenRot => /\ form = Forms[((Idx(m) + Idx(d) + Len(gen)) % 4) + 1]
                /\ poke = (Len(gen) % 2 = 1 /\ form # "imp")
   /\ gen' = Append(gen, [m |-> m, d |-> d, form |-> form, poke |-> poke])
-  /\ UNCHANGED <<sess, mods, mstack, loads, ctl, nreq, fs>>
+  /\ UNCHANGED <<sess, mods, mstack, loads, ctl, nreq, fs, cal>>
 
-FsRec(f) == [g |-> gen, fs |-> [m \in DOMAIN f |-> [syn |-> f[m].syn, body |-> f[m].body]]]
+FsRec(f) == [g |-> gen, fs |-> [m \in DOMAIN f \ Bundled |-> [syn |-> f[m].syn, body |-> f[m].body]]]
 
 GenDone(e) ==
   /\ Mode = "c11"
   /\ ctl.ph = "gen"
   /\ ctl' = Idle
-  /\ fs' = FSOf(gen, ModIds)
-  /\ UNCHANGED <<sess, mods, mstack, loads, gen, nreq>>
+  /\ fs' = FSOf(gen, ModIds) @@ BundledFS
+  /\ UNCHANGED <<sess, mods, mstack, loads, gen, nreq, cal>>
   /\ Emit(e, "FSDEF", FsRec(fs'))
 
 ASSUME Mode = "c10" => Emit(TRUE, "FSDEF", [g |-> << >>,
@@ -345,13 +466,14 @@ ASSUME Mode = "c10" => Emit(TRUE, "FSDEF", [g |-> << >>,
 -----------------------------------------------------------------------------
 Init ==
   /\ sess   = [i \in Interps |-> ("secret" :> IntV(1))]
-  /\ mods   = [i \in Interps |-> [x \in {} |-> [vars |-> NoBind, ctr |-> 0]]]
+  /\ mods   = [i \in Interps |-> [x \in Preloaded |-> [vars |-> NoBind, ctr |-> 0]]]
   /\ mstack = [i \in Interps |-> << >>]
-  /\ loads  = [i \in Interps |-> [x \in {} |-> 0]]
+  /\ loads  = [i \in Interps |-> [x \in Preloaded |-> 1]]
   /\ ctl    = IF Mode = "c10" THEN Idle ELSE [Idle EXCEPT !.ph = "gen"]
   /\ gen    = << >>
   /\ nreq   = 0
-  /\ fs     = IF Mode = "c10" THEN FS10 ELSE FSOf(<< >>, ModIds)
+  /\ fs     = (IF Mode = "c10" THEN FS10 ELSE FSOf(<< >>, ModIds)) @@ BundledFS
+  /\ cal    = CalInit
 
 NextE(e) ==
   \/ \E c \in Cmds : Atomic(c, e) \/ ReqStart(c)
@@ -391,7 +513,11 @@ Obs(i) ==
       mem |-> IF sess[i][n].k = "mod"
               THEN LET mv == mods[i][sess[i][n].id].vars
                    IN [x \in Exposed(FS, mv) |-> Render(i, mv[x])]
-              ELSE NoMem]]
+              ELSE NoMem,
+      \* which module instance a module object shows (names with the same `of`
+      \* must show the very same members) and whether mem lists them all
+      of   |-> IF sess[i][n].k = "mod" THEN sess[i][n].id ELSE "",
+      open |-> sess[i][n].k = "mod" /\ sess[i][n].id \in Bundled]]
 
 ExportState ==
   ctl.ph \in {"idle", "failed", "done"} =>
@@ -403,6 +529,12 @@ AtRest == ctl.ph \in {"idle", "failed", "done", "gen"}
 
 \* C10: nothing of a call survives on the module stack
 StackEmptyBetweenCalls == AtRest => \A i \in Interps : mstack[i] = << >>
+
+\* C10: a caller's environment hangs under the session only while its script
+\* runs, whether the script fails or not; so every interpreter resolves names
+\* through its own session only, and the walk up its chain ends
+CallerEnvDetached == AtRest => (cal.par = NoInterp /\ \A i \in Interps : cal.bpar[i] = NoInterp)
+SessionsIsolated  == \A i \in Interps : SessChain(i) = <<i>>
 
 \* C10: a failed command, repeated at once, fails the same way ...
 FailIsIdempotent == ctl.ph = "done" => ctl.first = ctl.second
@@ -420,7 +552,7 @@ Rebinder(j, n) ==
                           /\ (c.n = n \/ (c.op = "loop" /\ n = "i"))
                           /\ Atomic(c, FALSE)
   \/ /\ Stepping("bind") /\ I = j /\ Depth = 1
-     /\ n \in Denotes(FS, Top.form, Top.id, mods[j][Top.id].vars)
+     /\ n \in Denotes(FS, Top.form, Top.nm, mods[j][Top.id].vars)
 DefsPersist ==
   [][\A j \in Interps : \A n \in DOMAIN sess[j] :
         /\ n \in DOMAIN sess'[j]
@@ -448,7 +580,7 @@ BindsExactlyAct ==
         mv == mods[I][d].vars
         before == ImporterScope
         after == IF Depth = 1 THEN sess'[I] ELSE ctl'.act[Depth - 1].env
-        den == Denotes(FS, f, d, mv)
+        den == Denotes(FS, f, Top.nm, mv)
         changed == {n \in DOMAIN after : n \notin DOMAIN before \/ after[n] # before[n]}
     IN /\ DOMAIN after = DOMAIN before \cup den
        /\ changed \subseteq den
@@ -459,7 +591,7 @@ BindsExactly == [][BindsExactlyAct]_vars
 \* C11: module code saw nothing of the importer
 ModuleScopeIsBase ==
   \A i \in Interps : /\ "secret" \in DOMAIN sess[i]
-                     /\ \A m \in DOMAIN mods[i] : mods[i][m].vars[NTop(m)] = IntV(0)
+                     /\ \A m \in DOMAIN mods[i] \ Bundled : mods[i][m].vars[NTop(m)] = IntV(0)
 
 \* C11: every module value refers to the one cached instance
 Refs(sc) == {sc[n].id : n \in {x \in DOMAIN sc : sc[x].k \in {"mod", "sym"}}}
